@@ -12,7 +12,7 @@ import itertools
 import random
 
 import lib
-from lib import CoqEval, coq_list
+from lib import CoqEval, coq_list, coq_str
 
 PID = "C18"
 
@@ -362,7 +362,7 @@ def run(rep, tier, seed):
                                                    f"use) in one retort: dump({m!r}) = {d!r} (expected {want_rep(m)!r}), loaded back as "
                                                    f"{back!r}", "strict_coercion": sc, "mode": mode})
                             break
-    nm = model_part(rep, tier)
+    nm = model_part(rep, tier) + by_name_model_part(rep, tier, r)
     rep.cov.update({
         "evaluations": n + nm,
         "distinct_nontrivial": stats["roundtrips"],
@@ -433,6 +433,66 @@ def model_part(rep, tier):
         rep.violation("coq-eval-failed", "correspondence-diff", {"shard": k, "coq_error": err}, no_input=True)
     for idx, got in bad[:4]:
         rep.violation(f"flag-dump-diff:{idx % 7}", "correspondence-diff", {"case": cases[idx][0], "library": cases[idx][1], "model": got})
+    return len(cases)
+
+
+def by_name_model_part(rep, tier, r):
+    """enum_by_name against Model/Enum.v: random enums with snake-case member names, a map keyed by members and by names and
+    a name_style; for every member the dumped string, and for a pool of strings what the loader returns"""
+    import enum as _enum
+
+    from adaptix import NameStyle, Retort, enum_by_name
+    from adaptix.load_error import LoadError
+    COQ_STYLE = {"LOWER_SNAKE": "LowerSnake", "CAMEL_SNAKE": "CamelSnake", "PASCAL_SNAKE": "PascalSnake", "UPPER_SNAKE": "UpperSnake",
+                 "LOWER_KEBAB": "LowerKebab", "CAMEL_KEBAB": "CamelKebab", "PASCAL_KEBAB": "PascalKebab", "UPPER_KEBAB": "UpperKebab",
+                 "LOWER": "Lower", "CAMEL": "Camel", "PASCAL": "Pascal", "UPPER": "Upper", "LOWER_DOT": "LowerDot", "CAMEL_DOT": "CamelDot",
+                 "PASCAL_DOT": "PascalDot", "UPPER_DOT": "UpperDot"}
+    name_pool = ["first_value", "second", "THIRD", "a_b_c", "x1", "user_name", "z", "ab", "with_tail_"]
+    str_pool = ["first_value", "firstValue", "FIRST_VALUE", "second", "Second", "x", "y", "z", "ab", "AB", "mapped", "other", "", "userName"]
+    cases = []
+    for _ in range(60 if tier == "quick" else 600):
+        names = r.sample(name_pool, r.randint(1, 4))
+        E = _enum.Enum("E", {n: i for i, n in enumerate(names)})
+        members = list(E)
+        by_member = {m: r.choice(["mapped", "x", "y", str_pool[r.randrange(len(str_pool))]]) for m in members if r.random() < 0.25}
+        by_name = {m.name: r.choice(["other", "x", "z", m.name.upper()]) for m in members if r.random() < 0.25}
+        style = r.choice([None, None] + list(COQ_STYLE))
+        mp = {**by_name, **by_member}
+        try:
+            rt = Retort(recipe=[enum_by_name(E, name_style=getattr(NameStyle, style) if style else None, map=mp or None)])
+            dm, ld = rt.get_dumper(E), rt.get_loader(E)
+            dumped = [dm(m) for m in members]
+        except Exception as e:  # noqa: BLE001   (a name the style can not convert)
+            got = "creation-fails"
+        else:
+            loads = []
+            for s in str_pool + dumped:
+                try:
+                    loads.append(str(members.index(ld(s))))
+                except LoadError:
+                    loads.append("-")
+            got = "|".join(dumped) + "#" + ",".join(loads)
+        cases.append((
+            "(" + ("None" if style is None else f"(Some {COQ_STYLE[style]})") + ", "
+            + coq_list([f"({members.index(m)}, {coq_str(s)})" for m, s in by_member.items()]) + ", "
+            + coq_list([f"({coq_str(n)}, {coq_str(s)})" for n, s in by_name.items()]) + ", "
+            + coq_list([coq_str(n) for n in names]) + ", " + coq_list([coq_str(s) for s in str_pool]) + ")", got))
+    header = ("From AV Require Import Model.NameStyle Model.Enum Model.Harness.\nFrom Coq Require Import List String.\nImport ListNotations.\n"
+              "Local Open Scope string_scope.\n"
+              "Definition run (c : option style * list (nat * string) * list (string * string) * list string * list string) : string :=\n"
+              "  match c with (st, bm, bn, names, probes) =>\n"
+              "    let conv := fun n => match st with Some s => convert n s | None => Some n end in\n"
+              "    match name_mapping_from conv bm bn 0 names with\n"
+              "    | None => \"creation-fails\"\n"
+              "    | Some mp => let dumped := map snd mp in\n"
+              "        join \"|\" dumped ++ \"#\" ++ join \",\" (map (fun s => match name_load mp s with Some m => show_nat m | None => \"-\" end) (probes ++ dumped))\n"
+              "    end end.\n")
+    ce = CoqEval(PID + "n", header, "run", shard=200)
+    bad = ce.compare(cases)
+    for k, err in ce.errors:
+        rep.violation("coq-eval-failed:by-name", "correspondence-diff", {"shard": k, "coq_error": err}, no_input=True)
+    for idx, got in bad[:4]:
+        rep.violation(f"by-name-diff:{idx % 5}", "correspondence-diff", {"case": cases[idx][0], "library": cases[idx][1], "model": got})
     return len(cases)
 
 
